@@ -60,6 +60,25 @@ def crafted(case):
         else:
             exts = [(1, b"name.txt"), (0x53 if f == "user" else 0x52, put(b"owner", pos, b)), (0x50, perm_f), (0x51, struct.pack("<HH", 100, 1000))]
         method, size, data, crc = b"-lh0-", len(DATA), DATA, CRC
+    elif f == "long":
+        # strings at and beyond the sizes of fixed formatting buffers, the hostile byte far inside them
+        L, at, which = case["len"], case["at"], case["which"]
+        body = bytearray(b"abcdefghij"[i % 10] for i in range(L))
+        body[min(at, L - 1) if at >= 0 else L + at] = b
+        body = bytes(body)
+        if which == "name":
+            exts = [(2, b"dir\xff"), (1, body)]
+        elif which == "path":
+            exts = [(2, body + b"\xff"), (1, b"name.txt")]
+        elif which == "pathparts":
+            exts = [(2, body[:L // 2] + b"\xff" + body[L // 2:] + b"\xff"), (1, b"name.txt")]
+        elif which == "target":
+            exts = [(1, b"lnk|" + body), (0x50, perm_l)]
+            method, size, data, crc = b"-lhd-", 0, b"", 0
+        elif which == "user":
+            exts = [(1, b"name.txt"), (0x53, body), (0x52, b"grp"), (0x50, perm_f), (0x51, struct.pack("<HH", 100, 1000))]
+        elif which == "group":
+            exts = [(1, b"name.txt"), (0x52, body), (0x50, perm_f), (0x51, struct.pack("<HH", 100, 1000))]
     elif f == "methodN":
         m = bytearray(b"-lh0-")
         m[case["pos5"]] = b
@@ -82,7 +101,8 @@ def build(case):
 
 
 def describe(space, case):
-    return "C18 %s field=%s byte=0x%02x pos=%s kind=%s level=%s member=%s" % (space, case["field"], case["byte"], case.get("pos", case.get("pos5")), case["kind"], case["level"], case.get("member", 1))
+    return "C18 %s field=%s byte=0x%02x pos=%s kind=%s level=%s member=%s%s" % (space, case["field"], case["byte"], case.get("pos", case.get("pos5")), case["kind"], case["level"], case.get("member", 1),
+                                                                              " which=%s len=%s at=%s" % (case["which"], case["len"], case["at"]) if case["field"] == "long" else "")
 
 
 def run_case(runner, space, case):
